@@ -661,7 +661,8 @@ def run_level(ck, level, exe, backend, script, tag, state):
         if (info and info["known_class"] and obs is not None and mgroups[i] == obs and "MEMCHANGED" not in obs):
             # the implementation does exactly what the faithful ADFH model (floor count / stride > extent) predicts
             w = case_lines(script, i)
-            ck.finding(KNOWN_KEY, {"level": level, "backend": backend, "script": w, "expected": exp, "observed": obs})
+            if state["known"] == 0 or ck.known_match(KNOWN_KEY):      # an unlisted key is reported once, with its first witness
+                ck.finding(KNOWN_KEY, {"level": level, "backend": backend, "script": w, "expected": exp, "observed": obs})
             state["known"] += 1
             continue
         # a property failure that is not the known one: shrink and report
